@@ -8,7 +8,10 @@ __Pyx_BufFmt_Context, outcome accept / reject / crash (NULL ctx->head dereferenc
 dtype, its spine formats under edits (replace / insert / delete a production, wrap in T{}, repeat a record, put
 productions behind the end) and decides: no false accept; the transcription agrees with the reference except
 where a marked code point or a marked kind of format is involved (the deviations of the code as it is).
-spec/BufGeom.tla: number of dimensions, strides, suboffsets against the declared axes (see part G below).
+spec/BufGeom.tla (part G): exporter views <offset, [extent, stride, indirect]> under view operations against the
+declared axes (int[:], int[::1], int[:, :], int[:, ::1], int[::1, :], int[:, :, ::1], int[:, :, :], object[int, ndim=k]);
+reference = number of dimensions, direct access, PyBuffer_IsContiguous; transcription of __pyx_check_strides /
+__pyx_check_suboffsets / __pyx_verify_contig (MemoryView_C.c); P = CPython's memoryview of the same exporter.
 
 Binding B1: every published state is executed on code compiled from the working tree: a cdef class exporter
 hands out exactly the model's format text / item size (the format's own size, and sizeof(dtype) where the
@@ -34,7 +37,6 @@ import lib_buffmt as L
 
 PROP = "C17"
 
-SCALARS_Q = ["schar", "uchar", "char", "short", "int", "long", "double", "ldouble", "cdouble"]
 SCALARS_T = list(L.SC)
 STRUCTS = list(L.STRUCT_ORDER)
 
